@@ -25,6 +25,9 @@ func hx(b []byte) string {
 // CheckTree runs both directions of the oracle on one tree.
 var reused = ttlv.NewTTLVEncoder()
 
+// the previous MarshalTTLV result and a private copy of it
+var kept struct{ bytes, copy []byte }
+
 func CheckTree(c *core.Ctx, t wire.Node, extraWords int) {
 	c.Distinct(core.Hash64(t.Shape(), fmt.Sprint(extraWords)))
 	c.Count("trees", 1)
@@ -36,6 +39,15 @@ func CheckTree(c *core.Ctx, t wire.Node, extraWords int) {
 		c.Violation(core.PanicSig(v, st), fmt.Sprintf("MarshalTTLV panicked on a generic tree: %v", v), map[string]any{"tree": t.String(), "stack": st})
 		return
 	}
+	// bytes the encoder returned for the PREVIOUS tree must still be what they were: a result stays the caller's
+	if kept.bytes != nil && !bytes.Equal(kept.bytes, kept.copy) {
+		c.Violation("C03:returned-encoding-changed-later", "the byte slice returned by MarshalTTLV for an earlier value was modified by a later encode call (it is no longer the well-formed encoding it was)",
+			map[string]any{"earlier_result_now": hx(kept.bytes), "earlier_result_then": hx(kept.copy)})
+		kept.bytes = nil
+		return
+	}
+	kept.bytes, kept.copy = enc, append([]byte{}, enc...)
+	c.Count("retained_results_checked", 1)
 	parsed, err := wire.Parse(enc)
 	if err != nil {
 		c.Violation("C03:encoder-output-malformed:"+clsOf(t), "independent parser rejects library output: "+err.Error(),
